@@ -76,8 +76,78 @@ def strategy_(draw, thorough):
     return case
 
 
+@st.composite
+def sweep_(draw):
+    """Footers of later files around the size of the first file's footer: opening a list of >= 3 files fetches the tails of
+    the later files speculatively, sized from the first file's footer, and must fetch again when a footer is longer."""
+    return {"sweep": {"nfiles": draw(st.sampled_from([3, 3, 4])), "which": draw(st.integers(1, 3)),
+                      "pad0": draw(st.sampled_from([0, 0, 7, 100, 301])), "ncols": draw(st.integers(1, 4)),
+                      "rows": draw(st.sampled_from([1, 3, 20])), "mode": draw(st.sampled_from(["list", "merge", "directory"]))}}
+
+
 def strategy(tier):
-    return strategy_(tier == "thorough")
+    return st.integers(0, 9).flatmap(lambda k: sweep_() if k == 0 else strategy_(tier == "thorough"))
+
+
+def _footer_len(path):
+    with open(path, "rb") as f:
+        f.seek(-8, 2)
+        return int.from_bytes(f.read(4), "little")
+
+
+def _footer_sweep(case):
+    import fastparquet
+    import pandas as pd
+    sw = case["sweep"]
+    n, which = sw["nfiles"], min(sw["which"], sw["nfiles"] - 1)
+    labels = ["footer_sweep", "mode:" + sw["mode"], "files:%d" % n]
+    frames_ = [pd.DataFrame({"c%d" % j: np.arange(i * 100, i * 100 + sw["rows"], dtype="int64") + j for j in range(sw["ncols"])})
+               for i in range(n)]
+    exp = pd.concat(frames_, ignore_index=True)
+    seen, bad, execs = set(), None, 0
+    with common.Scratch() as d:
+        root = os.path.join(d, "ds")
+        os.makedirs(root)
+        paths = [os.path.join(root, "f%d.parquet" % i) for i in range(n)]
+        for i in range(n):
+            if i != which:
+                fastparquet.write(paths[i], frames_[i], custom_metadata=({"pad": "x" * sw["pad0"]} if i == 0 and sw["pad0"] else None))
+        l0 = _footer_len(paths[0])
+        fastparquet.write(paths[which], frames_[which], custom_metadata={"pad": ""})
+        base = _footer_len(paths[which])
+        lo, hi = int(1.4 * l0) - 24, int(1.4 * (l0 + 8)) + 12
+        for target in range(max(lo, base), hi + 1):
+            fastparquet.write(paths[which], frames_[which], custom_metadata={"pad": "x" * (target - base)})
+            got_len = _footer_len(paths[which])
+            if got_len in seen:
+                continue
+            seen.add(got_len)
+            execs += 1
+            try:
+                if sw["mode"] == "list":
+                    pf = fastparquet.ParquetFile(list(paths))
+                elif sw["mode"] == "directory":
+                    pf = fastparquet.ParquetFile(root)
+                else:
+                    for fn in ("_metadata", "_common_metadata"):
+                        if os.path.exists(os.path.join(root, fn)):
+                            os.unlink(os.path.join(root, fn))
+                    fastparquet.writer.merge(list(paths))
+                    pf = fastparquet.ParquetFile(root)
+                out = pf.to_pandas()
+            except Exception as e:
+                bad = ("open_or_read_raised|footer_sweep|" + exc_sig(e),
+                       "first footer %d bytes, file %d footer %d bytes: %s" % (l0, which, got_len, exc_detail(e)))
+                break
+            if len(out) != len(exp) or any(out[c].tolist() != exp[c].tolist() for c in exp.columns):
+                bad = ("content|footer_sweep", "first footer %d bytes, file %d footer %d bytes: rows differ" % (l0, which, got_len))
+                break
+    if bad:
+        return viol(bad[0], bad[1], labels=labels)
+    out = ok(execs >= 20, labels)
+    out["sub_evals"] = max(1, execs)
+    out["sub_nt"] = ["len%d" % x for x in sorted(seen)]
+    return out
 
 
 def _relpath(case, i):
@@ -95,6 +165,8 @@ def _relpath(case, i):
 def run_case(case):
     import fastparquet
     from fastparquet import writer as fwriter
+    if "sweep" in case:
+        return _footer_sweep(case)
     files, shape, mode = case["files"], case["shape"], case["mode"]
     n = len(files)
     labels = ["shape:" + shape, "mode:" + mode, "files:%d" % n, "root:" + case["root"]]
@@ -229,6 +301,8 @@ def run_case(case):
 
 
 def shrink_moves(case):
+    if "sweep" in case:
+        return
     n = len(case["files"])
     if n > 1:
         for i in range(n):
@@ -275,5 +349,7 @@ def shrink_moves(case):
 
 
 def abbreviate(case):
+    if "sweep" in case:
+        return case
     return {"files": [shrinkers.abbreviate_frame(f) for f in case["files"]], "shape": case["shape"], "pvals": case["pvals"],
             "mode": case["mode"], "root": case["root"], "order": case["order"], "mismatch": case["mismatch"]}
